@@ -93,8 +93,8 @@ type _node struct {
 // }
 
 func newNode(cfg *config, schemaType schema.Type, val reflect.Value) schema.TypedNode {
-	if schemaType.TypeKind() == schema.TypeKind_Int && nonPtrVal(val).Kind() == reflect.Uint64 {
-		// special case for uint64 values so we can handle the >int64 range
+	if kind := nonPtrVal(val).Kind(); schemaType.TypeKind() == schema.TypeKind_Int && (kind == reflect.Uint64 || kind == reflect.Uint) {
+		// special case for uint64 values (and uint, which is as wide on 64-bit platforms) so we can handle the >int64 range
 		// we give this treatment to all uint64s, regardless of current value
 		// because we have no guarantees the value won't change underneath us
 		return &_uintNode{
